@@ -53,6 +53,7 @@ func (propC12) Gen(r *Rng, tier string) *World {
 	w.Cfg.Event = []string{"report", "debug"}[r.Intn(2)]
 	w.Cfg.ViaDirect = r.P(0.2)
 	w.Cfg.DirStyle = r.Intn(6)
+	w.Cfg.ViaAPI = r.P(0.4)
 	w.Masks = []int{r.Intn(16)}
 	ops := SpecMap(w.Cfg.Ops)
 	p := Plan{Kind: []string{"eval", "eval", "tryeval"}[r.Intn(3)], Bind: g.Binding()}
@@ -143,7 +144,7 @@ func checkEvents(w *World, ops map[string]*OpSpec, tree *Node, p *Plan, out *Out
 	// (ii) user-operator events are exactly the seam log
 	var simEvs []eval.OpEventData
 	for _, d := range opEvs {
-		if ops[d.OpName] != nil {
+		if ops[d.OpName] != nil && !IsBuiltin(d.OpName) { // a user operator under a built-in name never runs
 			simEvs = append(simEvs, d)
 		}
 	}
@@ -171,7 +172,7 @@ func checkEvents(w *World, ops map[string]*OpSpec, tree *Node, p *Plan, out *Out
 	}
 	// (iii) built-in events are self-consistent
 	for _, d := range opEvs {
-		if ops[d.OpName] != nil || !IsBuiltin(d.OpName) {
+		if !IsBuiltin(d.OpName) {
 			continue
 		}
 		ps := toIfaces(d.Params)
